@@ -50,6 +50,20 @@ func VfBuildSplit(prefix string) *VfWorld {
 	return &VfWorld{R: r, ref: ref}
 }
 
+// VfBuildWeighted: as VfBuild(prefix, 1, 1, 0, 1, ...) with an optional symbolic weight on the group's member.
+func VfBuildWeighted(prefix string) *VfWorld {
+	r, ref := vfNewPair(true)
+	g := &vfGen{pfx: prefix, fixLow: true, weights: true}
+	vfCanonical(r, ref, g, vfPreCfg{nNH: 1, nNHG: 1, members: 1})
+	return &VfWorld{R: r, ref: ref}
+}
+
+// VfEmpty: an empty RIB with the same instances (the intended state of a tear-down).
+func VfEmpty() *VfWorld {
+	r, ref := vfNewPair(true)
+	return &VfWorld{R: r, ref: ref}
+}
+
 // VfKinds: IPv4, IPv6, MPLS top-level kinds.
 func VfKinds(v4, v6, mpls bool) []int {
 	var k []int
